@@ -183,6 +183,21 @@ def oracle_c02(case, out):
                         sfx = (":" + tpat) if (tk is not None and k >= tk) else ""     # F9: stale energy kept for a moved member
                         f.append(fail("best_inside", site_of(case), "best-outside-box" + sfx, dict(op=k, bestX=s["bestX"], bestE=s["bestE"])))
                         break
+            # ... and so does the whole population / simplex the solver keeps (it is clipped into the box when the objective is decorated and only
+            # evaluated points replace members), as long as nothing but the default-mode ranges acts on the points (no constraints, no tight / clip mode -
+            # there a candidate is stored as proposed and evaluated at its clipped image -, no population re-installed)
+            plain = not (op.get("tight") or op.get("clip") is not None) and not any(o["op"] == "SetConstraints" for o in case["ops"]) and \
+                not any(o["op"] in ("SetInitialPoints", "SetRandomInitialPoints") for o in case["ops"][first + 1:])
+            if plain and not f:
+                for k, s in enumerate(out["trace"]):
+                    # the INITIAL population / simplex (later members may carry infinite energies and lie anywhere): Nelder-Mead builds its simplex in
+                    # the second Step (until then the other vertices are zero placeholders), the others clip theirs in the first
+                    if k >= first and case["ops"][k]["op"] == "Step" and s["nstep"] == (2 if case["solver"] == "NM" else 1) and \
+                       (k == 0 or out["trace"][k - 1]["nstep"] == s["nstep"] - 1):
+                        bad = [x for x in s["pop"] if any(not (lo <= v <= hi) for v, lo, hi in zip(x, op["lo"], op["hi"]))]
+                        if bad:
+                            f.append(fail("population_inside", site_of(case), "population-member-outside-box", dict(op=k, x=bad[0], lo=op["lo"], hi=op["hi"])))
+                            break
     for op, r in zip(case["ops"], out["opres"]):
         if op["op"] == "SetRandomInitialPoints" and op["lo"] is None:
             for x in r["pop"]:     # the documented defaults
@@ -258,7 +273,9 @@ def oracle_c04(case, out):
                 pat = last_f13[1]      # no evaluation since: the same stale counter value, observed again after a Set* call
             last_f13 = ((s["evals"], s["ncalls"]), pat) if pat.startswith("de2-") else None
             f.append(fail("counter_is_calls", site_of(case), pat, dict(op=k, evaluations=s["evals"], real=s["ncalls"])))
-        if o == "SetEvalMonitor":
+        if o == "SetEvalMonitor" and op.get("defer") and k + 1 < len(out["opres"]) and out["opres"][k + 1].get("kw_dropped"):
+            pass        # handed to a Step that refused to start (the solver had stopped): never installed
+        elif o == "SetEvalMonitor":
             if emon_from is None:
                 emon_from = s["ncalls"]
             if op["new"] and not op.get("same"):     # (the monitor in use handed over again keeps its records)
